@@ -75,6 +75,8 @@ func VerifH_C18_arbitrary() {
 	k := vSymKey32()
 	p, err := decrypt(k, buf)
 	if err == nil {
+		// data is returned only if an authentication check passed
+		symAssert(symEventSeen("secretbox-open-ok") || symEventSeen("poly1305-verify-ok"), "data-only-after-a-mac-check-passed")
 		symAssert(n >= encryptNonceLen+macLen, "data-only-from-a-buffer-that-can-hold-nonce-and-mac")
 		symAssert(len(p) == n-encryptNonceLen-macLen, "plaintext-length")
 		symReach("accepted")
@@ -105,7 +107,26 @@ func VerifH_C18_wrapping() {
 	db, err := Open(vCtx, bkt.client(1), cfg, OpenOptions{}, time.Unix(0, 10))
 	symAssert(err == nil, "open-ok")
 	symAssert(db.Set(vCtx, time.Unix(0, 100), "k", "v") == nil, "set-ok")
+	// optionally one transient storage fault during the commit
+	faulty := symChoice("faulty", 2) == 1
+	if faulty {
+		f := symInt("fault")
+		symAssume(f >= 0)
+		symAssume(f < 4)
+		bkt.faultOn, bkt.faultAt = true, bkt.reqs+f
+	}
 	_, err = db.Commit(vCtx)
+	bkt.faultOn = false
+	if faulty {
+		// whatever reached the bucket under node/ is ciphertext
+		for name, body := range bkt.objs {
+			if len(name) > 9 && name[:9] == "kvp/node/" {
+				symAssert(len(body) > 0 && body[0] == 'E', "node-objects-are-encrypted")
+			}
+		}
+		symReach("end")
+		return
+	}
 	symAssert(err == nil, "commit-ok")
 	nodes := 0
 	for name, body := range bkt.objs {
